@@ -141,6 +141,17 @@ theorem gen_unique (sl : List Nat) (ll : List (Option Nat)) (ops : List Op) (hle
   rw [(run_init_eq sl ll pre₂ (histOk_prefix h₂ hok)).1] at he₂
   exact (cinv_run (fresh_init sl ll) ops hlen).uniq i k₁ k₂ e₁ e₂ ⟨pre₁, h₁, he₁⟩ ⟨pre₂, h₂, he₂⟩ hg
 
+/-- **The generation counter survives `clear`** (and every other operation but a performed store): in the
+source (`Gen.clearKeepsGeneration`, `Gen.generationOnlyBumpedByStore`, read by the translator from
+`mem_cache::nl_clear/clear/store`) and in the model.  `gen_unique` above is stated for *all* histories,
+clears by any node included; this is the fact it rests on. -/
+theorem generation_survives_clear :
+    C10.Gen.clearKeepsGeneration = true ∧ C10.Gen.generationOnlyBumpedByStore = true ∧
+    (∀ s : State, (C07.step s .clear).1.generation = s.generation) ∧
+    (∀ (s : State) (op : C07.Op), (∀ now k v ts d gen env, op ≠ .store now k v ts d gen env) →
+      (C07.step s op).1.generation = s.generation) :=
+  ⟨rfl, rfl, fun s => generation_step_nonstore s .clear (by intros; simp), fun s op h => generation_step_nonstore s op h⟩
+
 /-- **Every L1 entry was the server's entry**: whatever client `c`'s L1 holds for `k` — value,
 deadline, generation — the responsible server held for `k` at some earlier point of the history. -/
 theorem l1_inv (sl : List Nat) (ll : List (Option Nat)) (ops : List Op) (hlen : ops.length < 2 ^ 64) (hok : HistOk ops)
@@ -356,6 +367,13 @@ example : (step (run (Cluster.init [0, 0] [some 5, none, some 0]) (h₁ ++ [.ris
 -- an L1 entry and the server entry it copies (`l1_inv`), same generation (`gen_unique`)
 example : (labs (run (Cluster.init [0, 0] [some 5, none, some 0]) (h₁.take 3)) 0 k₁).map (·.gen) = some 0 ∧
     (sabs (run (Cluster.init [0, 0] [some 5, none, some 0]) (h₁.take 1)) (shard 2 k₁) k₁).map (·.gen) = some 0 := by decide
+-- generations keep growing across a clear issued by another node: the entry stored after it gets a fresh stamp,
+-- so the L1 copy made before the clear (generation 0) is not confirmed
+example :
+    let h : List Op := [.store 1 1000 k₁ [1] [] 2000, .fetch 0 1000 1000 k₁ false, .clear 1, .store 1 1000 k₁ [2] [] 2000]
+    (sabs (run (Cluster.init [0] [some 5, none]) h) 0 k₁).map (·.gen) = some 1 ∧
+    (labs (run (Cluster.init [0] [some 5, none]) h) 0 k₁).map (·.gen) = some 0 ∧
+    (step (run (Cluster.init [0] [some 5, none]) h) (.fetch 0 1000 1000 k₁ false)).2 = .hit [2] [] 2000 1 := by decide
 -- hypotheses of `transmit_segmentation_independent`: byte-wise / 7-byte segmenters; the client's request frames
 example : ∀ b, (chunksOf 1 b).flatten = b := chunksOf_flatten 1
 example : ∀ b, (chunksOf 7 b).flatten = b := chunksOf_flatten 7
